@@ -193,14 +193,17 @@ def run_history(name, params, calls, key, conv, inject=None, ctx=None):
     trace = []
     info = None
     for j, (meth, val) in enumerate(calls):
-        for rep_ in range((inject[3] if len(inject) > 3 else 1) if (inject is not None and inject[0] == j) else 0):
+        objs_ = []
+        if inject is not None and inject[0] == j:
+            objs_ = list(inject[2]) if isinstance(inject[2], Chain) else [inject[2]] * (inject[3] if len(inject) > 3 else 1)
+        for rep_, obj_ in enumerate(objs_):
             if info is not None and info[0] != "ValueError":
                 break  # an earlier repetition was already accepted / fell over: that is the finding
             tot0 = zoo.counters(det)[0]
             st0 = det.drift_state if rep_ == 0 else info[2]
             np.random.seed(rngtap.seed_for(key, j))
             try:
-                do_call(det, name, inject[1], inject[2])
+                do_call(det, name, inject[1], obj_)
                 info = ("accepted", None, st0)
             except Exception as e:  # noqa
                 # a deliberate rejection is raised by menelaus itself; an exception whose innermost frame lies in a third-party
@@ -226,6 +229,10 @@ def run_history(name, params, calls, key, conv, inject=None, ctx=None):
             continue
         trace.append(zoo.observe(det, name))
     return trace, info
+
+
+class Chain(list):
+    """several malformed objects offered one after the other before a valid call (each must be refused on its own merits)"""
 
 
 def offenders(name, d, calls, pos, rng):
@@ -255,6 +262,12 @@ def offenders(name, d, calls, pos, rng):
         for c in ("ndarray", "list", "frame"):
             out.append(("rows", c, "update", container(two, c)))
             out.append(("rows_wide", c, "update", container(np.hstack([two, two[:, :1]]), c)))
+    if k in ("x1", "xd") and d >= 2:
+        # the right number of elements in the wrong shape: the observation as a column, or folded into two rows
+        out.append(("rows", "ndarray", "update", base.reshape(-1, 1).copy()))
+        out.append(("rows", "list", "update", base.reshape(-1, 1).tolist()))
+        if d % 2 == 0:
+            out.append(("rows", "ndarray", "update", base.reshape(2, -1).copy()))
     # no observation at all: a 2-d input of the right width with zero rows (an empty slice of the data set)
     for c in ("ndarray", "frame"):
         out.append(("zero_rows", c, "update" if (pos > 0 or k != "batch" or name == "KdqTreeBatch") else meth, container(base[:0], c)))
@@ -345,7 +358,20 @@ def _run_case(case, ctx):
         times = 1 if rng.random() < 0.6 else int(rng.integers(2, 4))
         if times > 1:
             ctx.count("faults_repeated_in_a_row")
-        trace, info = run_history(name, params, calls, key, conv, inject=(pos, meth, obj, times))
+        inj_obj = obj
+        if k != "y" and rng.random() < 0.25:
+            # two different malformed calls in a row: what the first one is refused for must not change what the second is judged by
+            # (a frame of another width after array inputs is the open known finding: it is accepted and re-defines the width, so it
+            # cannot serve as the harmless first element of a chain)
+            arr_est = tab.width is not None and tab.by == "array"
+            alts = [c_ for c_ in cands if c_[2] == meth and not tab.classify(c_[3])[0] and c_[3] is not obj
+                    and not (arr_est and c_[1] == "frame" and tab.classify(c_[3])[1] in ("width", "univariate"))]
+            if alts:
+                first = alts[int(rng.integers(0, len(alts)))][3]
+                inj_obj = Chain([first, obj])
+                times = 1
+                ctx.count("faults_chained_two_different")
+        trace, info = run_history(name, params, calls, key, conv, inject=(pos, meth, inj_obj, times))
         est = "none" if tab.width is None else tab.by
         base = dict(detector=name, params=params, fault=fault, offender_container=cont_, position=pos, valid_inputs_as=ckind,
                     established_by=est, offender_shape=list(shape_of(name, obj)[:2]) if k != "y" else None, calls=len(calls))
